@@ -8,13 +8,13 @@ from ..run import Workload
 RULE = ("real (LPF) and complex 1/2-pol (BPF) records longer than the edge padding of the order in use, cutoffs in (0.01,0.45)*fs, orders "
         "1..8, fs in {1e9..1e12}, ndarray and container inputs, with and without a noise component; relations: linearity, DC gain, "
         "tone power, -6 dB at cutoff, monotone attenuation (effective response measured from the real filter's impulse response), zero "
-        "delay, retH. Non-trivial: record >= 32 samples with non-constant content; distinct by (filter, order, cutoff bin, fs, n_pol, length bin, input form).")
+        "delay, retH; LPF's fs argument 0.1x..40x the global rate. Non-trivial: record >= 32 samples with non-constant content; distinct by (filter, order, cutoff bin, fs, n_pol, length bin, input form).")
 ASSUMPTIONS = ["the statement fixes neither the filter family nor the edge treatment: signal/noise/polarisation clauses compare the library with itself, "
                "spectral clauses are measured on the real filter's own impulse/tone responses; only retH is compared with scipy's sosfreqz of a Bessel 'mag' prototype",
                "'-6.0 dB at cutoff' accepted within +-0.05 dB; measured away from the record edges on records of >= 4096 samples"]
 TOLERANCES = {"postcondition_rtol": 1e-9, "cutoff_dB": 0.05, "linearity_rtol": 1e-9}
 SHARDS = {"quick": 4}
-MIN_CHECKS = {"lpf.post": 300, "bpf.post": 300, "lpf.noise": 100, "bpf.noise": 100, "linear": 100, "cutoff": 60, "monotone": 60, "zero_delay": 60, "retH": 60}
+MIN_CHECKS = {"lpf.post": 300, "bpf.post": 300, "lpf.noise": 100, "bpf.noise": 100, "linear": 100, "cutoff": 60, "monotone": 60, "zero_delay": 60, "retH": 60, "fs_argument": 100}
 
 D = T = None
 
@@ -281,11 +281,53 @@ def w_fs_change(ctx, rng, i):
     ctx.case(("fschg", which, order, cut, tuple(a[0] for a in atts)), sample=dict(filter=which, order=order, cutoff_Hz=cut, attenuation_dB=[(a[0], float(a[1])) for a in atts]) if i < 2 else None)
 
 
+def w_explicit_fs(ctx, rng, i):
+    """LPF's own `fs` argument ("all sampling rates"): with the global grid on rate A, LPF(x, BW, n, fs=B) must be the filter of
+    rate B — same samples as LPF(x, BW, n) computed while the global rate is B, -6 dB at BW measured on the B grid, retH on the B
+    grid — for B below and above A and for cutoffs anywhere in (0.01, 0.45)*B (also beyond A/2)."""
+    fsA = set_fs(rng)
+    ratio = float([0.1, 0.25, 0.5, 2.0, 5.0, 40.0, 3.7, 1.0][i % 8])
+    fsB = fsA * ratio
+    order = int(rng.integers(1, 9))
+    frac = float(rng.uniform(0.01, 0.45)) if i % 3 else float([0.0101, 0.449, 0.3][i // 3 % 3])
+    cut = frac * fsB
+    N = int(rng.choice([4096, 4095, 2048]))
+    n = np.arange(N)
+    x = rng.normal(0, 1, N)
+    tone = np.cos(2 * np.pi * frac * n + rng.uniform(0, 6))
+    kw = bool(rng.integers(2))
+    ctx.describe(fs_global=fsA, fs_argument=fsB, order=order, cut_over_fs_argument=frac, N=N, keyword=kw)
+    mid = slice(N // 4, 3 * N // 4)
+    with core.quiet():
+        ya = D.LPF(T.electrical_signal(x), cut, order, fs=fsB) if kw else D.LPF(T.electrical_signal(x), cut, order, fsB)
+        yt = D.LPF(tone.copy(), cut, order, fs=fsB)
+        out, H = D.LPF(T.electrical_signal(x), cut, order, fsB, True)
+        sps = T.gv.sps
+        T.gv(sps=sps, fs=fsB)
+        yb = D.LPF(T.electrical_signal(x), cut, order)
+        T.gv(sps=sps, fs=fsA)
+    ctx.check("fs_argument", ya.signal.shape == yb.signal.shape and relerr(ya.signal, yb.signal) <= 1e-9, f"LPF(fs={fsB:.3g}) on a global grid of {fsA:.3g} differs from LPF on a global grid of {fsB:.3g} (rel err {relerr(ya.signal, yb.signal):.3g})")
+    ctx.check("fs_argument", relerr(out.signal, ya.signal) <= 1e-12, "LPF(..., retH=True) filters differently from LPF(...)")
+    att = 10 * np.log10(np.mean(yt.signal[mid] ** 2) / np.mean(tone[mid] ** 2))
+    ctx.check("cutoff", abs(att + 6.0206) <= 0.05, f"LPF order {order} with fs argument {fsB:.3g} (global {fsA:.3g}): tone at the cutoff attenuated by {-att:.3f} dB, expected 6.0 dB")
+    sos = ref_sos(cut, order, fsB)
+    _, Href = sg.sosfreqz(sos, worN=np.fft.fftfreq(N, 1 / fsB), fs=fsB)
+    Hs = np.fft.ifftshift(np.asarray(H))
+    ctx.check("retH", Hs.shape == Href.shape and relerr(Hs, Href) <= 1e-9, "LPF retH with an fs argument is not the single-pass prototype on that rate's frequency grid")
+    ctx.case(("xfs", ratio, order, round(frac, 2), fsA, N), sample=dict(fs_global=fsA, fs_argument=fsB, order=order, cutoff_over_fs=frac, att_dB=float(att)) if i < 3 else None)
+    ctx.bin("fs_argument_ratio", ratio)
+
+
 def w_errors(ctx, rng, i):
     with core.quiet():
         ctx.raises("errors", TypeError, D.BPF, T.electrical_signal(np.ones(40)), 1e9)
         ctx.raises("errors", TypeError, D.LPF, [1.0] * 40, 1e9)
     ctx.case(("err", i))
+
+
+def FORM_TWINS():
+    import opticomlib.devices as dv
+    return [(dv, ["LPF", "BPF"])]
 
 
 WORKLOADS = [
@@ -294,6 +336,7 @@ WORKLOADS = [
     Workload("tones", w_tones, 300, 30000),
     Workload("fs_change", w_fs_change, 60, 3000),
     Workload("errors", w_errors, 2, 10),
+    Workload("explicit_fs", w_explicit_fs, 160, 8000),
 ]
 
 
